@@ -1191,6 +1191,8 @@ def get_signals(signal_array, frame, ea, multiplex_id, float_factory, bit_offset
 
         signal_min = None  # type: canmatrix.types.OptionalPhysicalValue
         signal_max = None  # type: canmatrix.types.OptionalPhysicalValue
+        phys_lower = None
+        phys_upper = None
 
         signal_description = ea.get_element_desc(system_signal)
 
@@ -1226,6 +1228,13 @@ def get_signals(signal_array, frame, ea, multiplex_id, float_factory, bit_offset
                 for elem in uppers:
                     if decimal.Decimal(upper.text) < decimal.Decimal(elem.text):
                         upper = elem
+            if lower is None and upper is None:
+                # a rule may give the limits of the physical value instead of the internal one
+                for constrs in ea.get_children(data_constr, "PHYS-CONSTRS"):
+                    if phys_lower is None:
+                        phys_lower = ea.get_child(constrs, "LOWER-LIMIT")
+                    if phys_upper is None:
+                        phys_upper = ea.get_child(constrs, "UPPER-LIMIT")
         else:
             lower = ea.get_child(datatype, "LOWER-LIMIT")
             upper = ea.get_child(datatype, "UPPER-LIMIT")
@@ -1278,6 +1287,9 @@ def get_signals(signal_array, frame, ea, multiplex_id, float_factory, bit_offset
         if signal_max is not None:
             signal_max *= factor
             signal_max += offset
+        if signal_min is None and signal_max is None and phys_lower is not None and phys_upper is not None:
+            signal_min = float_factory(phys_lower.text)
+            signal_max = float_factory(phys_upper.text)
 
         if base_type is None:
             base_type = ea.follow_ref(datdefprops, "BASE-TYPE-REF")
